@@ -31,7 +31,9 @@
 (***************************************************************************)
 EXTENDS JsonChars, TLC
 
-CONSTANTS MaxLen,      \* source strings of length 0..MaxLen over SourceChars
+CONSTANTS MaxLen,      \* source strings of length 0..MaxLen over Alpha
+          Alpha,       \* the alphabet: a set of character ids (SourceChars = 1..10, or a mix with SpecialChars:
+                       \* raw U+FEFF U+2028 U+2029 U+0085 U+00A0 U+FFFE U+FFFF in first / middle / last position)
           FormMode,    \* "all" | "policy"
           Pols         \* FormMode "policy": the policies of JsonChars to run (a subset of Policies)
 
@@ -51,7 +53,7 @@ Plain == [m |-> "plain", k |-> 0, acc |-> 0, hi |-> 0]
 ASSUME PrintT(<<"codes", [c \in AllChars |-> Code(c)]>>)
 
 (* FormMode "policy" also runs the backslash-u VALUE strings of JsonChars (6..12 characters) *)
-Sources == StrsUpTo(SourceChars, MaxLen) \cup (IF FormMode = "policy" THEN BackslashUValues ELSE {})
+Sources == StrsUpTo(Alpha \cap (SourceChars \cup SpecialChars), MaxLen) \cup (IF FormMode = "policy" THEN BackslashUValues ELSE {})
 Init == /\ src \in Sources
         /\ pol \in (IF FormMode = "all" THEN {"free"} ELSE Pols \cap Policies)
         /\ phase = "esc" /\ inp = src /\ out = <<>> /\ txt = <<>> /\ mode = Plain
